@@ -20,7 +20,7 @@ Leg C2S : every recorded run (S2C + seeded random dyadic + seeded random millise
             (client, task allocation) gives one recorded run whose client index / total / sub-task clients are DERIVED in TLA+
             from the element's declaration (Placement) and whose client is the one whose ES client executed the requests.
 """
-from .. import clientloop, tlc
+from .. import clientloop, tlc, wireleg
 
 PID = "C04"
 PREFIX = "C04_"
@@ -64,7 +64,12 @@ def run(ctx, out):
     for key in ("requests_decided_within_1ms_before_schedule", "runs_of_wrapped_clients_on_overcommitted_element", "throttled_requests", "requests_behind_schedule", "requests_that_slept_until_schedule", "failed_requests", "weight_changes", "runs_aborted_by_unit_check", "runs_with_unit_conversion", "poisson_requests"):
         if not cov[key]:
             out.vacuous.append("no executed run exercised: " + key)
+    # wire leg (harness/wireleg.py): "service time is the span between sending the request and receiving its response" on the REAL
+    # EsClientFactory.create_async() client (aiohttp trace hooks) against a scripted loopback HTTP server, real time, judged by TLC
+    wireleg.run_leg(ctx, out, PID)
 
 
 def replay(ctx, case):
+    if isinstance(case, dict) and case.get("kind") == "wire":
+        return wireleg.replay(ctx, case, PID)
     return clientloop.replay(ctx, case, PID, PREFIX)
